@@ -429,7 +429,14 @@ static void h_op(void)
     char *rf; int st;
     if (!A) { h_out("bad-op"); return; }
     rf = malloc((size_t) A->alen + 1); memset(rf, '?', (size_t) A->alen); rf[A->alen] = 0;
-    st = esl_msa_ReasonableRF(A, h_argbits("symfrac"), h_argi("cons", 0) == 1 ? TRUE : FALSE, rf);
+    {
+      /* abc=<name> on a TEXT alignment: the caller hangs its own alphabet on the alignment for the call (the text branch of
+       * useconsseq=TRUE needs one: every text alignment the library builds has msa->abc == NULL -> eslEINVAL) */
+      ESL_ALPHABET *lent = (!(A->flags & eslMSA_DIGITAL) && A->abc == NULL) ? get_abc(h_arg("abc")) : NULL;
+      if (lent) A->abc = lent;
+      st = esl_msa_ReasonableRF(A, h_argbits("symfrac"), h_argi("cons", 0) == 1 ? TRUE : FALSE, rf);
+      if (lent) A->abc = NULL;
+    }
     out_ss(st == eslOK ? eslOK : st, rf); free(rf);
 
   /* ---------------- WUSS ---------------- */
